@@ -22,7 +22,10 @@ RULE = ('per shipped scheme a pool of generated molecules (quick ~45, '
         'G, S and G relative to the elements) of the pair vs the sum over the '
         'components. Non-trivial = a pair whose two components and whose '
         'joint species were all decomposed (or whose failure clause was '
-        'decided); distinct by (scheme, A, B).')
+        'decided); distinct by (scheme, A, B).'
+        ' Argument forms: dotted SMILES text, a Mol of the dotted SMILES, '
+        'CombineMols of the component Mols (object forms judged against '
+        'components given as objects). ')
 ASSUMPTIONS = [
     'shipped schemes contain no molecule-level prefixes (scanned by C14); the '
     'statement is quantified over shipped schemes',
